@@ -90,6 +90,7 @@ type plResult struct {
 	Class    []string  `json:"class"`    // per data datagram, stand-alone: "ok" (decodes), "err" (message AND error), "no" (rejected)
 	Decoded  uint64    `json:"decoded_count"`
 	Problem  string    `json:"problem,omitempty"`
+	Blocked  string    `json:"blocked,omitempty"` // a worker that waits for something it must not wait for
 }
 
 var plColTime = regexp.MustCompile(`"ColTime":\d+`)
@@ -486,6 +487,16 @@ func plRun(job plJob) (res plResult) {
 			return true
 		case <-time.After(5 * time.Second):
 			res.Problem = "no worker reached a hook within 5 s"
+			if job.Mirror == "full" && ad.mdrain != nil {
+				// is it the full mirror queue that holds the worker?  Make room and see whether it comes back
+				ad.mdrain()
+				select {
+				case h := <-events:
+					close(h.resume)
+					res.Blocked = "with the mirror queue full a worker stopped (for more than 5 s) and went on as soon as room was made in that queue: it waits for the mirror"
+				case <-time.After(3 * time.Second):
+				}
+			}
 			return false
 		}
 	}
